@@ -144,6 +144,11 @@ class C17(Prop):
                     return more()
                 x = r.choice(sibs)
                 state["kind"], state["ident"] = kind, x["EDIF.identifier"]
+                if r.random() < 0.35 and isinstance(x.name, str):
+                    # the element is REPLACED: taken out, and a new element with its name (or a case variant) is added
+                    state["ident"] = x.name
+                    return {"op": {"port": "remove_port", "cable": "remove_cable", "instance": "remove_child"}[kind],
+                            "on": top, "x": w.handle_of(x)}
                 return {"op": "set_name", "on": w.handle_of(x), "v": "was_%d" % r.randint(0, 10 ** 6)}
             if state["phase"] == 1:
                 state["phase"] = 2
